@@ -1895,8 +1895,15 @@ func zzC03Sweep(t testing.TB, z *zzC03Srv, u, v *zzC03Vec, rng *rand.Rand, full 
 	}
 
 	spells := zzC03Spells
-	if !full && v.Universe != "hosts" {
+	switch {
+	case full:
+	case v.Universe != "hosts":
 		pairs, spells = pairs[:16], []string{zzC03Spells[rng.Intn(len(zzC03Spells))]}
+	default:
+		// Quick tier: every (name, type) pair of a hosts configuration, in two
+		// seeded spellings instead of all four.
+		i := rng.Intn(len(zzC03Spells))
+		spells = []string{zzC03Spells[i], zzC03Spells[(i+1+rng.Intn(3))%4]}
 	}
 
 	ask := func(p nq2) {
